@@ -443,6 +443,7 @@ def gen_cases(ctx, n):
                     add('mask', 'poly %s %s' % (fs([px, py]), fs([c_ for v_ in vs for c_ in v_])), int(got),
                         (got == (1.0 if ref else 0.0), 'C13:mask', 'point %r polygon %r (given as %s, recycled by the caller afterwards): mask %r, crossing-number %r' % ((px, py), vs, rep, got, ref)),
                         dict(point=(px, py), vertices=vs, representation=rep), key=(f2b(px), len(vs)))
+            _mask_listings(ctx, cm, rng, add, vs, sc, off)
 
         # ---------------- samplers -----------------------------------------------------------------------------
         if it % 4 == 1:
@@ -473,7 +474,227 @@ def gen_cases(ctx, n):
                             dict(range=(lo_, hi_, nn), i=i), key=(f2b(lo_), f2b(hi_), nn, i), tol=True)
             # 1d / 2d / points / grid / vector variants: index order against the recorded call sequence
             _sampler_variants(ctx, cm, rng)
+    _round6_cases(ctx, cm, rng, add, max(40, n // 3))
     return cases
+
+
+# ------------------------------------------------------------------------------------------------------------------
+# round 6: validation ladders, whole sampler entry points, nested wrappers
+# ------------------------------------------------------------------------------------------------------------------
+_AXIS_CODE = ((' x ', 1), (' y ', 2), (' z ', 3), ('period_x', 1), ('period_y', 2), ('period_z', 3))
+
+
+def _ladder_code(st, msg):
+    """which raise of a constructor ladder fired: 0 = accepted, k = k-th raise (axis named in the message)"""
+    if st == 'ok':
+        return '0'
+    if st != 'ValueError':
+        return st
+    for pat, k in _AXIS_CODE:
+        if pat in msg:
+            return str(k)
+    return '1'
+
+
+def _sample_code(dim, st, msg):
+    if st != 'ValueError':
+        return st
+    low = msg.lower()
+    grp = 0 if 'range must be a tuple' in low else 1 if 'can not be greater' in low else 2 if 'number of' in low else None
+    if grp is None:
+        return 'ValueError?' + msg[:40]
+    if dim == 1:
+        return 'E %d' % (grp + 1)
+    ax = None
+    for i, nm in enumerate('xyz'):
+        if low.startswith(nm + ' range') or ('minimum %s range' % nm) in low or ('number of %s samples' % nm) in low:
+            ax = i
+    if ax is None:
+        return 'ValueError?' + msg[:40]
+    return 'E %d' % (grp * dim + ax + 1)
+
+
+def _round6_cases(ctx, cm, rng, add, n):
+    nan, inf = float('nan'), math.inf
+
+    def bound_pair():
+        k = rng.random()
+        a, b = sorted([rnd_float(rng), rnd_float(rng)])
+        if k < 0.55:
+            if not a < b:
+                a, b = -1.0, 1.0
+            return a, b
+        if k < 0.7:
+            return b, a                      # reversed (or equal)
+        if k < 0.8:
+            return a, a                      # equal: must be rejected (min >= max)
+        if k < 0.85:
+            return rng.choice([(0.0, -0.0), (-0.0, 0.0), (5e-324, 0.0), (0.0, 5e-324)])
+        if k < 0.92:
+            return rng.choice([(-inf, inf), (inf, -inf), (-inf, -inf), (inf, inf), (a, inf), (-inf, b)])
+        return rng.choice([(nan, b), (a, nan), (nan, nan)])
+
+    for it in range(n):
+        # ---- clamp constructors ---------------------------------------------------------------------------
+        dim = rng.choice([1, 2, 3])
+        bs = [bound_pair() for _ in range(dim)]
+        flat = [v for ab in bs for v in ab]
+        st, w = call(getattr(cm, 'ClampInput%dD' % dim), Rec(), *flat)
+        add('clampin-ctor%dD' % dim, '%s %s' % (('cctor', 'cctor2', 'cctor3')[dim - 1], fs(flat)),
+            _ladder_code(st, w if st != 'ok' else ''), (True, '', ''), dict(cls='ClampInput%dD' % dim, bounds=bs),
+            key=tuple(f2b(v) for v in flat))
+        st, w = call(getattr(cm, 'ClampOutput%dD' % dim), Rec(), *bs[0])
+        add('clampout-ctor', 'cctor %s' % fs(list(bs[0])), _ladder_code(st, w if st != 'ok' else ''), (True, '', ''),
+            dict(cls='ClampOutput%dD' % dim, bounds=bs[0]), key=('o', dim) + tuple(f2b(v) for v in bs[0]))
+        # an accepted ClampInput must deliver arguments inside the box (clampInput3_checked)
+        # ---- periodic constructors ------------------------------------------------------------------------
+        dim = rng.choice([1, 2, 3])
+        vec = rng.random() < 0.4
+        ps = [rng.choice([rnd_period(rng), rnd_period(rng), 0.0, -0.0, -1.0, -5e-324, 5e-324, -rnd_period(rng), nan, inf, -inf])
+              for _ in range(dim)]
+        cls = getattr(cm, ('VectorPeriodicTransform%dD' if vec else 'PeriodicTransform%dD') % dim)
+        st, w = call(cls, Rec(vector=vec), *ps)
+        add('periodic-ctor%dD%s' % (dim, 'v' if vec else ''), 'pctor%d %s' % (dim, fs(ps)),
+            _ladder_code(st, w if st != 'ok' else ''), (True, '', ''), dict(cls=cls.__name__, periods=ps),
+            key=(vec,) + tuple(f2b(v) for v in ps))
+
+        # ---- sampler entry points: ladder + axes + call order ------------------------------------------------
+        dim = rng.choice([1, 2, 3])
+        vec = dim > 1 and rng.random() < 0.3
+        rngs = []
+        for _ in range(dim):
+            a, b = sorted([rnd_s(rng), rnd_s(rng)])
+            k = rng.random()
+            if k < 0.12 and a != b:
+                a, b = b, a
+            elif k < 0.2:
+                b = a
+            cnt = rng.choice([1, 2, 3, 4, 5]) if rng.random() < 0.8 else rng.choice([0, -1, -7])
+            ln = 3 if rng.random() < 0.85 else rng.choice([2, 4])
+            rngs.append((a, b, cnt, ln))
+        tuples = [((a, b, c) if ln == 3 else (a, b) if ln == 2 else (a, b, c, 0)) for a, b, c, ln in rngs]
+        rec = Rec(vector=vec)
+        fn = getattr(cm, ('samplevector%dd' if vec else 'sample%dd') % dim)
+        st, out = call(fn, rec, *tuples)
+        line = 'samp%d %s %s %s' % (dim, ' '.join(str(r[3]) for r in rngs), fs([v for r in rngs for v in r[:2]]),
+                                    ' '.join(str(r[2]) for r in rngs))
+        if st == 'ok':
+            obs = [float(v) for ax in out[:dim] for v in ax] + [float(c) for cl in rec.calls for c in cl]
+            shape_ok = tuple(out[dim].shape[:dim]) == tuple(r[2] for r in rngs)
+            oracle = (shape_ok, 'C13:sample%dd:shape' % dim, 'value array shape %r for ranges %r' % (out[dim].shape, tuples))
+        else:
+            obs = _sample_code(dim, st, out)
+            # a rejected range must not have evaluated the function at all (sample*_rejected)
+            oracle = (True, '', '')
+            if rec.calls:
+                ctx.count('sampler-evaluated-before-rejecting')
+        add('sample%dd-entry%s' % (dim, 'v' if vec else ''), line, obs, oracle, dict(fn=fn.__name__, ranges=tuples),
+            key=(vec,) + tuple((f2b(a), f2b(b), c, ln) for a, b, c, ln in rngs), tol=True)
+
+        # ---- nested wrappers -------------------------------------------------------------------------------------
+        p = rnd_period(rng)
+        x = rnd_float(rng) if rng.random() < 0.7 else p * rng.randint(-5, 5)
+        mn, mx = sorted([rng.uniform(-3, 3), rng.uniform(-3, 3)])
+        if not mn < mx:
+            mn, mx = -1.0, 1.0
+        inner = []
+
+        def g(t, inner=inner):
+            inner.append(t)
+            return 2.0 * t - 1.0
+        st, res = call(cm.ClampOutput1D(cm.PeriodicTransform1D(g, p), mn, mx), x)
+        okc = st == 'ok' and len(inner) == 1 and 0.0 <= inner[0] < p and res == min(max(2.0 * inner[0] - 1.0, mn), mx)
+        add('nested:clampout>periodic', 'coper %s' % fs([x, p, math.fmod(x, p), mn, mx]), [res] if st == 'ok' else st,
+            (okc, 'C13:nested:ClampOutput1D>PeriodicTransform1D', 'x=%r p=%r bounds %r: inner %r result %r' % (x, p, (mn, mx), inner, res)),
+            dict(x=x, period=p, bounds=(mn, mx)), key=(f2b(x), f2b(p)))
+
+        pz = rnd_period(rng)
+        x, y, z = rnd_float(rng), rnd_float(rng), rnd_float(rng)
+        if rng.random() < 0.3:
+            z = pz * rng.randint(-4, 4)
+        if abs(x) < 1e150 and abs(y) < 1e150:
+            rec = Rec()
+            st, res = call(cm.AxisymmetricMapper(cm.PeriodicTransform2D(rec, 0.0, pz)), x, y, z)
+            r = math.sqrt(x * x + y * y)
+            got = rec.calls[-1] if rec.calls else None
+            oka = got is not None and got[0] == r and 0.0 <= got[1] < pz
+            add('nested:axisym>periodic', 'axper %s' % fs([x, y, z, pz, math.fmod(z, pz)]), list(got) if got else st,
+                (oka, 'C13:nested:AxisymmetricMapper>PeriodicTransform2D', 'args %r pz %r: f got %r, want (%r, z mod pz)' % ((x, y, z), pz, got, r)),
+                dict(args=(x, y, z), period_z=pz), key=(f2b(x), f2b(y), f2b(z), f2b(pz)))
+
+        bs = []
+        for _ in range(3):
+            a, b = sorted([rnd_float(rng), rnd_float(rng)])
+            if not a < b:
+                a, b = -1.0, 1.0
+            bs.append((a, b))
+        flat = [v for ab in bs for v in ab]
+        axis = rng.randint(0, 2)
+        v, x, y = rnd_float(rng), rnd_float(rng), rnd_float(rng)
+        rec = Rec()
+        st, res = call(cm.Slice3D(cm.ClampInput3D(rec, *flat), rng.choice([axis, 'xyz'[axis], 'XYZ'[axis]]), v), x, y)
+        full = [x, y]
+        full.insert(axis, v)
+        ref = tuple(min(max(full[d], bs[d][0]), bs[d][1]) for d in range(3))
+        got = rec.calls[-1] if rec.calls else None
+        add('nested:slice>clampin', 'slci %d %s' % (axis, fs([v, x, y] + flat)), list(got) if got else st,
+            (got is not None and _same(got, ref), 'C13:nested:Slice3D>ClampInput3D', 'axis %d value %r args %r bounds %r: f got %r want %r' % (axis, v, (x, y), bs, got, ref)),
+            dict(axis=axis, value=v, args=(x, y), bounds=bs), key=(axis, f2b(v), f2b(x), f2b(y)))
+
+
+def _mask_listings(ctx, cm, rng, add, vs, sc, off):
+    """round 6 (seeded changes): the same closed polygon listed from EVERY start vertex and in both orientations must give
+    the same mask, equal to the crossing-number spec of the polygon, at the same points.  Test points: random points
+    of the polygon's bounding box (computed here from the generated vertices, never read from the object) and points
+    just inside each extreme vertex (max-x, min-x, max-y, min-y), where a wrong extent / bounding box / start-vertex
+    special case shows."""
+    n = len(vs)
+    guard = 1e-6 * sc + 1e-9 * max(abs(off[0]), abs(off[1]))
+    xs_, ys_ = [v[0] for v in vs], [v[1] for v in vs]
+    pts = [(rng.uniform(min(xs_), max(xs_)), rng.uniform(min(ys_), max(ys_))) for _ in range(4)]
+    extreme = {max(range(n), key=lambda i: vs[i][0]), min(range(n), key=lambda i: vs[i][0]),
+               max(range(n), key=lambda i: vs[i][1]), min(range(n), key=lambda i: vs[i][1])}
+    for i in sorted(extreme):
+        (ax, ay), (bx, by), (qx, qy) = vs[i - 1], vs[i], vs[(i + 1) % n]
+        mx_, my_ = 0.5 * (ax + qx), 0.5 * (ay + qy)
+        for t in (0.03, 0.15, 0.4):
+            pts.append((bx + t * (mx_ - bx), by + t * (my_ - by)))
+            # and just outside the vertex, on the other side
+        pts.append((bx - 0.05 * (mx_ - bx), by - 0.05 * (my_ - by)))
+    pts = [p_ for p_ in pts if edge_distance(p_[0], p_[1], vs) >= guard]
+    if not pts:
+        return
+    refs = [crossing(px, py, vs) for px, py in pts]
+    ctx.count('mask-listing-points-inside', sum(refs))
+    ctx.count('mask-listing-points-outside', len(refs) - sum(refs))
+    for rev in (False, True):
+        for k in range(n):
+            lst = vs[k:] + vs[:k]
+            if rev:
+                lst = lst[::-1]
+            st, mask = call(cm.PolygonMask2D, [tuple(v) for v in lst])
+            if st != 'ok':
+                ctx.fail('C13:mask:ctor', 'PolygonMask2D rejected a listing of a simple polygon: %s' % mask, dict(vertices=lst))
+                return
+            ctx.count('mask-listings')
+            is_extreme_start = (k in extreme) if not rev else ((k - 1) % n in extreme)
+            for j, ((px, py), ref) in enumerate(zip(pts, refs)):
+                st, got = call(mask, px, py)
+                want = 1.0 if ref else 0.0
+                if st != 'ok' or got != want:
+                    ctx.fail('C13:mask:depends-on-vertex-listing',
+                             'polygon %r listed from vertex %d%s as %r: mask(%r, %r) = %r, crossing number of the polygon says %r '
+                             '(the other listings of the same polygon are checked at the same point)'
+                             % (vs, k, ' reversed' if rev else '', lst, px, py, got, want),
+                             dict(kind='mask-listing', vertices=lst, point=(px, py), base=vs, start=k, reversed=rev))
+                    return
+            # K: the crossing-number model on this very listing (theorems inPolygon_listing / _rotate / _reverse)
+            j = rng.randrange(len(pts))
+            px, py = pts[j]
+            # the model is evaluated on the listing; its guard band is the same polygon's
+            add('mask-listing', 'poly %s %s' % (fs([px, py]), fs([c_ for v_ in lst for c_ in v_])), int(refs[j]),
+                (True, '', ''), dict(point=(px, py), vertices=lst, start=k, reversed=rev),
+                key=('listing', f2b(px), k, rev, is_extreme_start))
 
 
 def rnd_s(rng):
@@ -597,6 +818,7 @@ def run(ctx):
                     'raysect triangulate2d/Discrete2DMesh, Vector3D.transform, numpy.linspace (compared, not modelled beyond the formula)']
     ctx.assumptions += ['finite arguments; polygon test points keep 1e-6 distance from edges (guard band, counted)']
     ctx.lean_check(['Cherab.Props.C13'], 'Cherab/Audit/C13.lean')
+    ctx.lean_check(['Cherab.Props.C13Ctor'], 'Cherab/Audit/C13Ctor.lean')
 
     cases = gen_cases(ctx, ctx.n(400, 6000))
     outs = ctx.driver([c['line'] for c in cases])
